@@ -78,11 +78,12 @@ type holdPoint struct {
 }
 
 // armHold arms the hold point key:
-//   dl.<c>  inside SetReadDeadline(future) of connection c (0: the PacketConn), before it takes effect
-//   rd.<c>  inside Read / ReadFrom, after request / packet c has been consumed, before the call returns
-//   ac.<c>  inside Accept, after connection c has been taken, before the call returns
-//   ma.<c>  inside MsgAcceptFunc for request c (worker running, handler not yet entered)
-//   cl.<c>  inside Close of connection c, before it takes effect
+//
+//	dl.<c>  inside SetReadDeadline(future) of connection c (0: the PacketConn), before it takes effect
+//	rd.<c>  inside Read / ReadFrom, after request / packet c has been consumed, before the call returns
+//	ac.<c>  inside Accept, after connection c has been taken, before the call returns
+//	ma.<c>  inside MsgAcceptFunc for request c (worker running, handler not yet entered)
+//	cl.<c>  inside Close of connection c, before it takes effect
 func (w *world) armHold(key string) {
 	w.mu.Lock()
 	w.holds[key] = &holdPoint{armed: true, entered: make(chan struct{}), release: make(chan struct{})}
@@ -124,6 +125,7 @@ func (w *world) releaseHold(key string) {
 //   - lockHeld (the server may run this step under srv.lock, so Shutdown cannot get in): a
 //     ShutdownContext call is blocked acquiring a lock, or was invoked more than 3 s ago, or
 //   - the harness releases the point.
+//
 // It only delays a thread inside a net.Conn / net.PacketConn / net.Listener / user callback,
 // which any such object may do; it is never a verdict by itself.
 func (w *world) holdAt(key string, lockHeld bool, passed func() bool) {
@@ -316,6 +318,28 @@ func (w *world) count(e string) int {
 	return n
 }
 
+// countRet: e is the return of a call (sr.v, dr.j.r): the number of returns of that call with
+// ANY result.  A plan waits for the call to return; whether the result is the right one is
+// for the oracles and the model to say (no 10 s wait, and a precise verdict instead of "stuck").
+func (w *world) countRet(e string) int {
+	pre := ""
+	switch {
+	case strings.HasPrefix(e, "sr."):
+		pre = "sr."
+	case strings.HasPrefix(e, "dr."):
+		pre = e[:strings.LastIndexByte(e, '.')+1]
+	default:
+		return w.count(e)
+	}
+	n := 0
+	for _, x := range w.ev {
+		if strings.HasPrefix(x, pre) {
+			n++
+		}
+	}
+	return n
+}
+
 // waitFor blocks until event e has been logged at least n times.
 func (w *world) waitFor(e string, n int) bool {
 	deadline := time.Now().Add(waitLong)
@@ -323,7 +347,7 @@ func (w *world) waitFor(e string, n int) bool {
 	defer timer.Stop()
 	w.mu.Lock()
 	defer w.mu.Unlock()
-	for w.count(e) < n {
+	for w.countRet(e) < n {
 		if time.Now().After(deadline) {
 			if w.stuck == "" {
 				w.stuck = fmt.Sprintf("event %s (x%d) did not happen within %s", e, n, waitLong)
@@ -378,11 +402,11 @@ func (e tmpErr) Timeout() bool   { return e.timeout }
 func (e tmpErr) Temporary() bool { return true }
 
 type fakeListener struct {
-	w      *world
-	queue  chan *fakeConn
-	closed chan struct{}
-	once   sync.Once
-	errs   chan error
+	w        *world
+	queue    chan *fakeConn
+	closed   chan struct{}
+	once     sync.Once
+	errs     chan error
 	mu       sync.Mutex
 	isClosed bool
 }
@@ -427,17 +451,17 @@ func (l *fakeListener) Close() error {
 func (l *fakeListener) Addr() net.Addr { return idAddr{0} }
 
 type fakeConn struct {
-	w      *world
-	id     int
-	mu     sync.Mutex
-	cond   *sync.Cond
-	in     []byte // octets the client has sent and the server has not read
-	msgEnd []int  // remaining lengths: in is a sequence of framed messages; msgEnd[0] = octets left of the current one
-	dlPast bool
+	w       *world
+	id      int
+	mu      sync.Mutex
+	cond    *sync.Cond
+	in      []byte // octets the client has sent and the server has not read
+	msgEnd  []int  // remaining lengths: in is a sequence of framed messages; msgEnd[0] = octets left of the current one
+	dlPast  bool
 	sawPast bool // a deadline in the past has been set (Shutdown reached this connection)
-	eof    bool // client closed its side
-	closed bool // server closed
-	out    [][]byte
+	eof     bool // client closed its side
+	closed  bool // server closed
+	out     [][]byte
 }
 
 func (w *world) newConn(id int) *fakeConn {
@@ -956,20 +980,21 @@ func (w *world) goroutinesBack(name string, base int, plan []string) {
 
 // ---------------------------------------------------------------- scenario runner
 // A plan is a list of operations:
-//   S<i> start call i (waits for NotifyStartedFunc when i == 0)   C<c> connect c (tcp)
-//   Q<c> request on c, wait until its handler is entered           q<c> request without waiting
-//   R<c> release the handler of c                                  X<c> client closes c
-//   D<j> Shutdown call j, wait until its lock region has run       d<j> same without waiting
-//   K<j> ShutdownContext call j (cancellable)                      k<j> cancel its context
-//   T    inject a temporary accept / read error                    W<e> wait for event e
-//   P<c> arm the window of reader c (0 = the UDP serve loop): its next read is held between the
-//        srv.isStarted() test and the read-deadline region      V<c> wait until it is there   U<c> let it go
-//   s<i> start call without waiting                                Z    Shutdown calls until one finds the server started
-//   H<key> arm the hold point key (see armHold): the server thread that reaches that step of the
-//        read loop stays there until the lock region of a Shutdown call has run (or the call is
-//        blocked on srv.lock)           G<key> wait until a thread is there   L<key> let it go
-//   N    the life of the Server value is over (all calls returned, no goroutine left): the SAME
-//        Server value gets a new listener / PacketConn; the following operations are its next life
+//
+//	S<i> start call i (waits for NotifyStartedFunc when i == 0)   C<c> connect c (tcp)
+//	Q<c> request on c, wait until its handler is entered           q<c> request without waiting
+//	R<c> release the handler of c                                  X<c> client closes c
+//	D<j> Shutdown call j, wait until its lock region has run       d<j> same without waiting
+//	K<j> ShutdownContext call j (cancellable)                      k<j> cancel its context
+//	T    inject a temporary accept / read error                    W<e> wait for event e
+//	P<c> arm the window of reader c (0 = the UDP serve loop): its next read is held between the
+//	     srv.isStarted() test and the read-deadline region      V<c> wait until it is there   U<c> let it go
+//	s<i> start call without waiting                                Z    Shutdown calls until one finds the server started
+//	H<key> arm the hold point key (see armHold): the server thread that reaches that step of the
+//	     read loop stays there until the lock region of a Shutdown call has run (or the call is
+//	     blocked on srv.lock)           G<key> wait until a thread is there   L<key> let it go
+//	N    the life of the Server value is over (all calls returned, no goroutine left): the SAME
+//	     Server value gets a new listener / PacketConn; the following operations are its next life
 func runPlan(mode, name string, plan []string, attempt int) bool {
 	if stuckConfirmed >= 2 {
 		st["scenarios_skipped_after_confirmed_hangs"]++
@@ -1467,10 +1492,10 @@ func lifeBodies(mode string) map[string][]string {
 // A library that refuses the second start while the first serve call has not returned
 // satisfies the property trivially (counted, no verdict).
 func restartWhileDraining(mode string, keepOpen bool) {
-	key := "C13/restart-while-draining"
+	const keyLife = "C13/restart-while-draining"
+	const keyConn = "C13/restart-while-draining/connection-outlives-shutdown" // only the two oracles on the kept-open connection
 	name := "restart-while-draining-" + mode
 	if keepOpen {
-		key += "/connection-outlives-shutdown"
 		name += "-conn-kept-open"
 	}
 	base := runtime.NumGoroutine()
@@ -1492,7 +1517,7 @@ func restartWhileDraining(mode string, keepOpen bool) {
 			w.pc.Close()
 		}
 	}
-	fail := func(what string) {
+	fail := func(key, what string) {
 		w.mu.Lock()
 		pan := append([]string(nil), w.panicked...)
 		w.mu.Unlock()
@@ -1513,7 +1538,7 @@ func restartWhileDraining(mode string, keepOpen bool) {
 	w.cancel(0)
 	w.waitFor("dr.0.1", 1)
 	if w.stuck != "" {
-		fail("first life: " + w.stuck)
+		fail(keyLife, "first life: "+w.stuck)
 		return
 	}
 	// second life of the same Server value; the first serve call still waits for handler 1
@@ -1535,7 +1560,7 @@ func restartWhileDraining(mode string, keepOpen bool) {
 			return
 		}
 		if time.Now().After(d) {
-			fail("the second start neither served nor was refused")
+			fail(keyLife, "the second start neither served nor was refused")
 			return
 		}
 		time.Sleep(200 * time.Microsecond)
@@ -1577,14 +1602,14 @@ func restartWhileDraining(mode string, keepOpen bool) {
 	st["restart_while_draining_checked"]++
 	switch {
 	case early:
-		fail("the same Server value was started again while its previous serve call was still waiting for a handler " +
+		fail(keyLife, "the same Server value was started again while its previous serve call was still waiting for a handler "+
 			"(ShutdownContext had returned its context error): Shutdown of the new life returned nil while a handler of the new life was still running")
 		return
 	case len(pan) > 0:
-		fail("the same Server value was started again while its previous serve call was still draining: " + strings.Join(pan, "; "))
+		fail(keyLife, "the same Server value was started again while its previous serve call was still draining: "+strings.Join(pan, "; "))
 		return
 	case w.stuck != "":
-		fail("second life: " + w.stuck)
+		fail(keyLife, "second life: "+w.stuck)
 		return
 	}
 	if keepOpen && c1 != nil {
@@ -1607,17 +1632,17 @@ func restartWhileDraining(mode string, keepOpen bool) {
 		w.mu.Unlock()
 		switch {
 		case started:
-			fail("a connection accepted in the first life was still being served after Shutdown of the second life had returned nil " +
+			fail(keyConn, "a connection accepted in the first life was still being served after Shutdown of the second life had returned nil "+
 				"(it is not in the new srv.conns, so its read was not unblocked): a handler was STARTED for a query on it after Shutdown returned")
 			return
 		case !closed || sr < 2:
-			fail("after Shutdown of the second life had returned nil, a connection of the first life was still open / the first serve call had not returned")
+			fail(keyConn, "after Shutdown of the second life had returned nil, a connection of the first life was still open / the first serve call had not returned")
 			return
 		}
 	}
 	w.settle(name, base, plan)
 	if w.stuck != "" {
-		fail(w.stuck)
+		fail(keyLife, w.stuck)
 	}
 }
 
